@@ -246,6 +246,7 @@ func (e *Env) teardown() {
 		f()
 	}
 	e.Net.ClearRules()
+	e.Net.SetMode(0, false)
 	e.Net.Unblock()
 	for _, cl := range clients {
 		done := make(chan struct{})
